@@ -334,9 +334,12 @@ class ImplRunner:
             declared, actual = op['gen']
             ctr = [0]
 
+            slow = op.get('gen_cost') or {}     # byte index -> ns the generator needs to produce that byte (judge-only scenarios, no_model)
+
             def g(data=bytes(actual), ctr=ctr):
-                for b in data:
+                for k, b in enumerate(data):
                     ctr[0] += 1
+                    CLOCK.ns += slow.get(k, 0)
                     yield b
             self.gens[i].append([rid, ctr, 0])
             gobj = g()
